@@ -122,6 +122,7 @@ class SharedMemoryFileBufferedCollection(FileBufferedCollection):
             else:
                 # If the contents have not been changed since the initial read,
                 # we don't need to rewrite it.
+                written = False
                 try:
                     # Validate that the file hasn't been changed by
                     # something else.
@@ -132,6 +133,7 @@ class SharedMemoryFileBufferedCollection(FileBufferedCollection):
                         # this file; this object may never have loaded it.
                         self._data = cached_data["contents"]
                         self._save_to_resource()
+                        written = True
                 finally:
                     # Whether or not an error was raised, the cache must be
                     # cleared to ensure a valid final buffer state, unless
@@ -148,7 +150,11 @@ class SharedMemoryFileBufferedCollection(FileBufferedCollection):
                         # another (possibly forced) flush afterwards that will
                         # appear invalid if the metadata isn't updated to the
                         # metadata after the current flush.
-                        cached_data["metadata"] = self._get_file_metadata()
+                        # Only a file that was just written has new metadata;
+                        # refreshing it otherwise would hide changes made on
+                        # disk by someone else from later flushes.
+                        if written:
+                            cached_data["metadata"] = self._get_file_metadata()
                         cached_data["modified"] = False
         # Otherwise this object is still buffered by an enclosing context (its
         # own buffered context was left inside buffer_backend()): nothing is
